@@ -220,16 +220,26 @@ pub fn write(dir: &[DirEntry], streams: &[Vec<u8>]) -> (Vec<u8>, Vec<(u64, u64)>
     let big: Vec<usize> = (0..n).filter(|&i| dir[i].typ == 2 && !is_mini[i]).collect();
     let n_big_secs: usize = big.iter().map(|&i| secs(streams[i].len())).sum();
     let body = n_dir_secs + n_minifat_secs + n_mini_secs + n_big_secs;
+    // FAT sectors first, then the DIFAT sectors that list the FAT sectors beyond the 109 of the
+    // header, then everything else
     let mut n_fat_secs = 1;
-    while n_fat_secs * (SSZ / 4) < body + n_fat_secs {
+    let mut n_difat_secs = 0;
+    loop {
+        n_difat_secs = if n_fat_secs > 109 { (n_fat_secs - 109 + 126) / 127 } else { 0 };
+        if n_fat_secs * (SSZ / 4) >= body + n_fat_secs + n_difat_secs {
+            break;
+        }
         n_fat_secs += 1;
     }
-    assert!(n_fat_secs <= 109, "cfb writer: file too large for a DIFAT-less layout");
-    let total = n_fat_secs + body;
+    let total = n_fat_secs + n_difat_secs + body;
     let mut fat = vec![FREESECT; n_fat_secs * (SSZ / 4)];
     let mut next = 0u32;
     for i in 0..n_fat_secs {
         fat[i] = FATSECT;
+        next += 1;
+    }
+    for i in 0..n_difat_secs {
+        fat[n_fat_secs + i] = 0xFFFF_FFFC; // DIFSECT
         next += 1;
     }
     let mut alloc_chain = |k: usize, fat: &mut Vec<u32>, next: &mut u32| -> u32 {
@@ -273,11 +283,21 @@ pub fn write(dir: &[DirEntry], streams: &[Vec<u8>]) -> (Vec<u8>, Vec<(u64, u64)>
     img[56..60].copy_from_slice(&4096u32.to_le_bytes());
     img[60..64].copy_from_slice(&(if n_minifat_secs > 0 { minifat_start } else { ENDOFCHAIN }).to_le_bytes());
     img[64..68].copy_from_slice(&(n_minifat_secs as u32).to_le_bytes());
-    img[68..72].copy_from_slice(&ENDOFCHAIN.to_le_bytes());
-    img[72..76].copy_from_slice(&0u32.to_le_bytes());
+    img[68..72].copy_from_slice(&(if n_difat_secs > 0 { n_fat_secs as u32 } else { ENDOFCHAIN }).to_le_bytes());
+    img[72..76].copy_from_slice(&(n_difat_secs as u32).to_le_bytes());
     for i in 0..109 {
         let v = if i < n_fat_secs { i as u32 } else { FREESECT };
         img[76 + 4 * i..80 + 4 * i].copy_from_slice(&v.to_le_bytes());
+    }
+    for d in 0..n_difat_secs {
+        let o = (n_fat_secs + d + 1) * SSZ;
+        for k in 0..127 {
+            let idx = 109 + d * 127 + k;
+            let v = if idx < n_fat_secs { idx as u32 } else { FREESECT };
+            img[o + 4 * k..o + 4 * k + 4].copy_from_slice(&v.to_le_bytes());
+        }
+        let nxt = if d + 1 < n_difat_secs { (n_fat_secs + d + 1) as u32 } else { ENDOFCHAIN };
+        img[o + 508..o + 512].copy_from_slice(&nxt.to_le_bytes());
     }
     // FAT
     for (i, v) in fat.iter().enumerate() {
